@@ -243,3 +243,10 @@ for _k, _extra in {
     "C19": "Explicit formats with extension-less paths.",
 }.items():
     CHECKS[_k]["text"] += " " + _extra
+for _k, _extra in {
+    "C02": "Hand-built single-clp schemes (one matrix column) in shard 0.",
+    "C09": "Axes mapped to other units (spacing 5e-10; offset 2^21) by maps that are exact in binary floating point.",
+    "C10": "The reference value for x comes from an optimiser whose first evaluation is x.",
+    "C17": "Schemes that carry a dataset the model does not use.",
+}.items():
+    CHECKS[_k]["text"] += " " + _extra
